@@ -8,6 +8,7 @@ import (
 	"math/big"
 	"reflect"
 	"strconv"
+	"sync"
 
 	"go.lstv.dev/util/constraint"
 	"go.lstv.dev/util/size"
@@ -533,7 +534,11 @@ func kindOf[N constraint.Numbers]() (max, minabs []int, bits int, isf, iss bool)
 
 var lastSnz, lastFmax, lastFmin []int // filled by kindOf for the event being built (the harness core is sequential)
 
+var kindMu sync.Mutex // the pattern variables above belong to one event at a time, also in the concurrent leg
+
 func constraintKind(e Ev) Ev {
+	kindMu.Lock()
+	defer kindMu.Unlock()
 	var max, mn []int
 	var bits int
 	var isf, iss bool
